@@ -309,4 +309,60 @@ theorem bisLoop_invariant (g : ℝ → ℝ) (anyNeg : ℝ → Bool) (B tolD tolB
     · exact h1
     · exact h2
 
+/-! ### the outside good receives a positive consumption -/
+
+theorem inv_outside_pos (v : Variant) (scale : Option ℝ) (a : Alt ℝ) (hok : ParamOK a)
+    (hout : a.gamma = none) (lam : ℝ) (hl : lamOK scale a v lam)
+    (hcap : v = .translated → True) : 0 < inv v scale a lam := by
+  have hE := E_pos scale a
+  have hp := hok.price_pos
+  cases v with
+  | translated =>
+    have hl' : 0 < lam := hl
+    rw [inv_tr_out scale a lam hout (ne_of_gt hl')]
+    exact Real.exp_pos _
+  | gammaProfile =>
+    have hl' : 0 < lam := hl
+    rw [inv_gp_out scale a lam hout]
+    exact div_pos hE hl'
+  | generalized =>
+    have hl' : 0 < lam := hl
+    rw [inv_ge_out scale a lam hout]
+    exact mul_pos hp (Real.rpow_pos_of_pos (div_pos (mul_pos hp hl') hE) _)
+  | nonMonotonic =>
+    have hl' : a.mu + scaledEps scale a < lam := hl
+    rw [inv_nm_out scale a lam hout]
+    exact Real.rpow_pos_of_pos (mul_pos (by linarith) (Real.exp_pos _)) _
+
+/-! ### the relation evaluated by the driver, with zero tolerances, is the hypothesis of the
+optimality theorem -/
+
+theorem kktB_exact (v : Variant) (scale : Option ℝ) (B lam : ℝ) (alts : List (Alt ℝ)) (xs : List ℝ)
+    (h : kktB v scale B 0 0 alts xs lam = true) :
+    xs.sum = B ∧ ∀ p ∈ alts.zip xs, 0 ≤ p.2 ∧ (0 < p.2 → dU v scale p.1 p.2 = lam) ∧
+      (p.2 = 0 → isOutside p.1 = false ∧ dU v scale p.1 0 ≤ lam) := by
+  unfold kktB at h
+  simp only [Bool.and_eq_true, List.all_eq_true, le_real, ofNat_real_zero, abs_real, sub_real,
+    sum_real, mul_real, zero_mul, add_real, add_zero] at h
+  obtain ⟨⟨h1, h2⟩, h3⟩ := h
+  refine ⟨?_, ?_⟩
+  · have := abs_nonpos_iff.mp h2
+    linarith
+  · intro p hp
+    refine ⟨h1 p hp, ?_, ?_⟩
+    · intro hpos
+      have := h3 p hp
+      have hlt : Num.lt (0 : ℝ) p.2 = true := by simpa using hpos
+      simp only [ofNat_real_zero] at hlt
+      simp only [hlt, if_true, le_real, abs_real, sub_real] at this
+      have := abs_nonpos_iff.mp this
+      linarith
+    · intro hz
+      have := h3 p hp
+      have hlt : Num.lt (0 : ℝ) p.2 = false := by
+        rw [lt_real_false]; rw [hz]
+      simp only [ofNat_real_zero] at hlt
+      simp only [hlt, Bool.false_eq_true, if_false, Bool.and_eq_true, Bool.not_eq_true', le_real] at this
+      exact this
+
 end Mdcev
